@@ -185,7 +185,8 @@ class C12(Check):
             'and antipode + points 1e-12..1e-3 rad either side of cap boundaries + poles/axes, given as Cartesian or '
             'RA/Dec (incl. RA 0/360, Dec +-90); the same list as in-memory ManglePolygon objects, .ply text '
             '(17 significant digits, varying headers), FITS polygon tables (TDIM layout with garbage padding, IFIELD '
-            'optional, plain 3D one-cap layout with and without TDIM; raw and converted), window_blist+window_bcaps '
+            'optional; raw tables also with only the geometry columns XCAPS/CMCAPS/NCAPS/USE_CAPS, each of '
+            'IFIELD/WEIGHT/PIXEL/STR present or absent independently, unrelated extra columns, shuffled column order; plain 3D one-cap layout with and without TDIM; raw and converted), window_blist+window_bcaps '
             '(shuffled ICAP order with junk gaps) through window_read; the repository\'s own t/polygon*.{fits,ply}; '
             'set_use_caps with permutations, subsets, singletons, repeats, empty lists, list/tuple/ndarray, add, '
             'tol, allow_doubles, allow_neg_doubles on caps sharing a centre with equal/opposite/unrelated cm; '
@@ -216,8 +217,9 @@ class C12(Check):
         'long double on the stored values; near-duplicates are generated at 0, 0.1, 0.5, 0.9, 1.1, 1.2, 1.5, 1.8, 2, 10 x tol '
         'along axes, face and space diagonals and random directions (cm offsets 0.5, 0.9, 1.1, 2 x tol); pydl evaluates the '
         'same quantities to ~5e-16 relative, a case is undecided only if a quantity is within 1e-9 (relative) of tol (margin '
-        '1e6), or if the tolerance relation is not transitive on the requested caps so that "later duplicates of a selected '
-        'cap" has two readings that differ (both readings are computed)',
+        '1e6); chains (B doubles A, C doubles B, C does not double A; 3-5 members, steps 0.52-0.9 tol along a line and/or in '
+        'cm) are a standing family: a cap dropped as a double is no longer selected and is not a reference for later caps '
+        '(the property text, and the unchanged code whose outer loop re-tests the mask), so C stays',
         'cap counts 31, 32, 33, 63, 64, 65, 100 with Python-int use-masks of any size are in the domain for ManglePolygon and '
         '.ply; FITS USE_CAPS is a 32-bit column (<= 32 caps); window_read keeps USE_CAPS in an int32, so 32 caps raise '
         'OverflowError on the unchanged tree - balkans are exercised up to 31 caps (reported, not asserted)',
@@ -234,6 +236,8 @@ class C12(Check):
                          'requery_window_after_polygon_on_member', 'requery_file_objects',
                          'usecaps_neardup_inside_tol_removed', 'usecaps_neardup_1_to_sqrt3_tol_kept',
                          'usecaps_neardup_each_component_inside_tol_kept', 'usecaps_cm_difference_near_tol',
+                         'usecaps_chain_dropped_cap_is_no_reference', 'fits_raw_column_subset',
+                         'fits_raw_without_weight_pixel_or_str', 'fits_raw_geometry_columns_only', 'fits_raw_extra_columns',
                          'manycaps_mask_ge_2_63', 'manycaps_mask_bit31_or_more', 'manycaps_64_or_more_caps',
                          'manycaps_window', 'manycaps_file_arms', 'manycaps_usecaps')
     REQUIRED_REACH = {'mangle.is_in_polygon': 0.9, 'mangle.is_in_window': 0.9, 'mangle.set_use_caps': 0.9,
@@ -429,8 +433,41 @@ class C12(Check):
         tol_arg = [None, None, 1e-10, 1e-8, 1e-7, 1e-5][int(g.integers(6))]
         tol = 1e-10 if tol_arg is None else tol_arg
         xs, cms, note = [], [], []
+        pending = []
+        chained = False
         for k in range(n):
+            if pending:
+                x, cm, nt = pending.pop(0)
+                xs.append([float(c) for c in x])
+                cms.append(float(cm))
+                note.append(nt)
+                continue
             r = g.uniform()
+            if k > 0 and n - k >= 2 and r < 0.09:
+                # CHAIN of 3-5 near-duplicates in index order: each member doubles its predecessor (step 0.52-0.9 tol along
+                # a line and/or in cm) but not the one before that (two steps > tol).  A dropped member must not knock
+                # out the next one: expected survivors are A, C, (E).
+                fresh = [q for q in range(k) if note[q] == 'fresh']
+                j = int(fresh[int(g.integers(len(fresh)))]) if fresh and g.uniform() < 0.7 else k - 1
+                kind = str(g.choice(['line', 'line', 'cm', 'both']))
+                u = g.normal(size=3) if g.uniform() < 0.6 else g.choice([-1.0, 1.0], size=3)
+                u = u / np.linalg.norm(u)
+                step = float(g.uniform(0.52, 0.9))
+                cstep = float(g.uniform(0.52, 0.9)) * float(g.choice([-1, 1]))
+                for m in range(1, int(g.integers(2, 5)) + 1):
+                    xm = np.array(xs[j]) + (u * (m * step * tol) if kind != 'cm' else 0.0)
+                    cmm = cms[j] + (m * cstep * tol if kind != 'line' else 0.0)
+                    if g.uniform() < 0.2:
+                        cmm = -cmm                      # the double may be the sign twin (unless allow_neg_doubles)
+                    if pending and g.uniform() < 0.15:
+                        pending.append((unit(g), float(g.uniform(0.05, 1.9)), 'fresh'))      # an unrelated cap in between
+                    pending.append((xm, cmm, 'chain %s of %d step %.2ftol #%d' % (kind, j, step if kind != 'cm' else abs(cstep), m)))
+                chained = True
+                x, cm, nt = pending.pop(0)
+                xs.append([float(c) for c in x])
+                cms.append(float(cm))
+                note.append(nt)
+                continue
             if k > 0 and r < 0.2:
                 # near-duplicate at a chosen multiple of tol from an earlier cap, in axis / diagonal / random directions:
                 # the duplicate rule is EUCLIDEAN distance < tol (not per component), decided at 0.9 / 1.1 / 1.2 ... tol
@@ -492,6 +529,8 @@ class C12(Check):
             xs.append([float(c) for c in x])
             cms.append(float(cm))
         style = g.uniform()
+        if chained and g.uniform() < 0.6:
+            style *= 0.3                                  # select every cap, so that the whole chain is requested
         if style < 0.2:
             idx = [int(v) for v in g.permutation(n)]
         elif style < 0.3:
@@ -1033,6 +1072,52 @@ class C12(Check):
                     # the objects that were read, asked again with other ncaps
                     self._requery_window(out, arm, poly, pts, ref, masks, False, values if conv else values[:1], case['pts'],
                                          prev=first, counter='requery_file_objects')
+        # --- raw tables with other column sets: membership needs XCAPS, CMCAPS, NCAPS, USE_CAPS only; every book-keeping
+        #     column (IFIELD, WEIGHT, PIXEL, STR) is present or absent independently, unrelated columns may be added,
+        #     the column order is shuffled.  (The converted form requires WEIGHT/PIXEL/STR and is not asked here.)
+        L = np.random.default_rng(case['fmt']['seed'] + 3)
+        ref, masks, values = rq
+        for layout in ['tdim'] + (['plain'] if case['fmt']['plain3d'] else []):
+            a = self._fits_table(case, polys, layout)
+            geometry_only = bool(L.uniform() < 0.25)
+            opt = [] if geometry_only else [c for c in ('IFIELD', 'WEIGHT', 'PIXEL', 'STR')
+                                            if c in a.dtype.names and L.uniform() < 0.5]
+            extras = [] if geometry_only else [e for e in (('AREA', 'f8'), ('LABEL', 'S8'), ('FLAG', 'i2'), ('IPRIMARY', 'i4'))
+                                               if L.uniform() < 0.3]
+            cols = [(nm, a.dtype[nm]) for nm in ['XCAPS', 'CMCAPS', 'NCAPS', 'USE_CAPS'] + opt] + extras
+            cols = [cols[i] for i in L.permutation(len(cols))]
+            b = np.zeros(len(a), dtype=[(c[0], c[1]) for c in cols])
+            for nm, _ in cols:
+                if nm in a.dtype.names:
+                    b[nm] = a[nm]
+                elif nm == 'LABEL':
+                    b[nm] = [('p%d' % i).encode() for i in range(len(a))]
+                else:
+                    b[nm] = L.integers(0, 100, len(a))
+            fn = os.path.join(d, 'poly_subset_%s.fits' % layout)
+            fits.BinTableHDU(b).writeto(fn, overwrite=True)
+            arm = 'fits_%s_subset_raw' % layout
+            ok, poly = self._call(out, arm + ':read', M.read_fits_polygons, fn)
+            if not ok or not out.expect(len(poly) == len(polys), 'window:' + arm, 'read %d polygons, wrote %d' % (len(poly), len(polys))):
+                continue
+            out.count('fits_raw_column_subset')
+            if not all(c in opt for c in ('WEIGHT', 'PIXEL', 'STR')):
+                out.count('fits_raw_without_weight_pixel_or_str')
+            if geometry_only:
+                out.count('fits_raw_geometry_columns_only')
+            if extras:
+                out.count('fits_raw_extra_columns')
+            names = [c[0] for c in cols]
+            ok, res = self._call(out, arm, M.is_in_window, poly, pts, ncaps=ncp)
+            if ok:
+                self._cmp_window(out, 'window:' + arm, res, first, alt, case['pts'], ncaps=ncp, columns=names)
+            for i0 in sorted({0, len(polys) - 1}):
+                okp, gp = self._call(out, arm + ':is_in_polygon', M.is_in_polygon, poly[i0], pts, ncaps=ncp)
+                if okp:
+                    st, _ = ref.polygon(i0, masks[i0], ncp)
+                    self._cmp_bool(out, 'polygon:' + arm, gp, st, case['pts'], polygon=i0, columns=names)
+            self._requery_window(out, arm, poly, pts, ref, masks, False, values[:1], case['pts'], prev=first,
+                                 counter='requery_file_objects')
 
     def _ply_text(self, case, polys):
         fmt = case['fmt']
@@ -1322,12 +1407,15 @@ class C12(Check):
         if case['allow_neg_doubles']:
             kw['allow_neg_doubles'] = True
         old = int(case['old'])
-        exp, amb = R.use_caps_ref(x, cm, idx, old_mask=old, add=case['add'], tol=tol,
-                                  allow_doubles=case['allow_doubles'], allow_neg_doubles=case['allow_neg_doubles'])
+        rinfo = {}
+        exp, amb = R.use_caps_ref(x, cm, idx, old_mask=old, add=case['add'], tol=tol, allow_doubles=case['allow_doubles'],
+                                  allow_neg_doubles=case['allow_neg_doubles'], info=rinfo)
+        if rinfo.get('chain') and not amb:
+            out.count('usecaps_chain_dropped_cap_is_no_reference')
         poly = M.ManglePolygon(x=x.copy(), cm=cm.copy(), use_caps=old)
         if amb:
             out.undecide(1)
-            out.count('usecaps_undecided_nontransitive' if 'transitive' in amb else 'usecaps_undecided_band')
+            out.count('usecaps_undecided_band')
             return
         if n >= 31:
             out.count('manycaps_usecaps')
